@@ -3,7 +3,7 @@
 WT="$1"; SD="$2"; OUT="$SD/confirm.log"
 cd "$WT" || exit 2
 git checkout -q -- . && git clean -qfd -e target
-DEMO=$(python3 -c "import json;print(json.load(open('$SD/meta.json'))['demo_cmd'])")
+DEMO=$(python3 -c "import json;c=json.load(open('$SD/meta.json'))['demo_cmd'];print(c[c.rindex('cargo test'):])")
 {
 echo "== confirm $SD in $WT at $(git rev-parse --short HEAD)"
 git apply "$SD/patch.diff" || { echo "PATCH DOES NOT APPLY"; exit 2; }
